@@ -135,6 +135,10 @@ func extractArchiver() {
 	s.boolean("stopClosesAfterWriters", strings.Contains(st, "WaitGroup.Wait()") && strings.Contains(st, ".Close()") &&
 		strings.Index(st, "WaitGroup.Wait()") < strings.Index(st, ".Close()"))
 
+	// the per-host limiter is addressed by one and the same key when waiting, on failure and on success
+	s.boolean("limiterKeysAgree", strings.Count(as, "globalBucketManager.Wait(req.URL.Host)") == 1 &&
+		strings.Count(as, "globalBucketManager.AdjustOnFailure(req.URL.Host,resp.StatusCode)") == 1 &&
+		strings.Count(as, "globalBucketManager.OnSuccess(req.URL.Host)") == 1 && strings.Count(as, "globalBucketManager.") == 3)
 	// body.go: every branch drains the body
 	pb := strings.ReplaceAll(src(fn("internal/pkg/archiver/body.go", "ProcessBody")), " ", "")
 	s.boolean("bodySniff2048", strings.Contains(pb, "copyWithTimeoutN(buffer,u.GetResponse().Body,2048,conn)"))
